@@ -37,6 +37,10 @@ ASSUME \A p \in QP \cup GP : ParsePath(Text(p)) = p
 Call(h, op, p, sd, v, a) == [h |-> h, op |-> op, p |-> p, sd |-> sd, v |-> v, a |-> a]
 Loops == {n \in Live(f) : f[n].k = "loop"}
 ChildData(h) == {SegData(f, f[h].ch[i]) : i \in {j \in 1..Len(f[h].ch) : f[f[h].ch[j]].k = "seg"}}
+(* data that is NEARLY that of a child segment: one more (non-empty) element at the end, or the last element dropped - a segment is deleted
+   only when its data is exactly the data given, a prefix or an extension of it is another segment *)
+NearData(h) == {[id |-> d.id, eles |-> Append(d.eles, <<"ZZ">>)] : d \in ChildData(h)}
+               \cup {[id |-> d.id, eles |-> SubSeq(d.eles, 1, Len(d.eles) - 1)] : d \in {x \in ChildData(h) : Len(x.eles) >= 2}}
 CallsFor(h, op) ==
   CASE op = "query" -> {Call(h, op, p, NoSeg, "", 0) : p \in QP}
     [] op = "get" -> {Call(h, op, p, NoSeg, "", 0) : p \in GP}
@@ -44,7 +48,7 @@ CallsFor(h, op) ==
     [] op = "delete_node" -> IF f[h].k = "loop" THEN {Call(h, op, p, NoSeg, "", 0) : p \in QP} ELSE {}
     [] op = "add_segment" -> IF f[h].k = "loop" THEN {Call(h, op, NoPath, sd, "", 0) : sd \in SegsAdd} ELSE {}
     [] op = "add_loop" -> IF f[h].k = "loop" THEN {Call(h, op, NoPath, sd, "", 0) : sd \in SegsAdd} ELSE {}
-    [] op = "delete_segment" -> IF f[h].k = "loop" THEN {Call(h, op, NoPath, sd, "", 0) : sd \in SegsAdd \cup ChildData(h)} ELSE {}
+    [] op = "delete_segment" -> IF f[h].k = "loop" THEN {Call(h, op, NoPath, sd, "", 0) : sd \in SegsAdd \cup ChildData(h) \cup NearData(h)} ELSE {}
     [] op = "add_node" -> IF f[h].k = "loop" THEN {Call(h, op, NoPath, NoSeg, "", a) : a \in Roots(f) \ {1}} ELSE {}
     [] op = "delete" -> {Call(h, op, NoPath, NoSeg, "", 0)}
     [] op = "copy" -> IF AllowCopy THEN {Call(h, op, NoPath, NoSeg, "", 0)} ELSE {}
@@ -127,7 +131,7 @@ SimPathCall(h, op) ==
 SimCall(h, op) ==
   CASE op \in {"query", "get", "set", "delete_node"} -> SimPathCall(h, op)
     [] op \in {"add_segment", "add_loop", "delete_segment"} ->
-         \E sd \in Pick(SegsAdd \cup ChildData(h)) : Try(Call(h, op, NoPath, sd, "", 0))
+         \E sd \in Pick(SegsAdd \cup ChildData(h) \cup (IF op = "delete_segment" THEN NearData(h) ELSE {})) : Try(Call(h, op, NoPath, sd, "", 0))
     [] op = "add_node" -> LET R == Roots(f) \ {1} IN
                           IF R = {} THEN Fallback(h) ELSE \E a \in Pick(R) : Try(Call(h, op, NoPath, NoSeg, "", a))
     [] OTHER -> Try(Call(h, op, NoPath, NoSeg, "", 0))
